@@ -25,7 +25,8 @@ RULE = ("case = (registry key != 'convex', n in 3..8, seed): GENERATORS[key](n, 
         "Distinct = (key, n, digest of values); non-trivial = game not identically zero.")
 SHARDS = {"quick": 4, "thorough": 16}
 BUDGET = {"quick": 45, "thorough": 420}
-REQUIRED = ["generator_calls", "registry_keys", "determinism_pairs_in_process", "determinism_cross_process"]
+REQUIRED = ["generator_calls", "registry_keys", "determinism_pairs_in_process", "determinism_cross_process",
+            "determinism_model_instance_cross_process"]
 
 SAM_PREFIXES = ("xos", "xs", "oxs", "k_budget", "covg")
 
@@ -123,6 +124,38 @@ def cross_process(ctx, specs: list[tuple[str, int, int]], local: dict) -> None:
                           {"key": key, "n": n, "seed": seed, "cross_process": True})
 
 
+def model_path(ctx) -> None:
+    """The same determinism through the way the command line obtains its games (ModelInstance(seed=...).game_generator_fn),
+    observed in two fresh interpreters with different hash seeds."""
+    rng = ctx.rng
+    specs = [(k, rng.choice([3, 4, 5]), rng.randint(0, 10**6)) for k in rng.sample(
+        ["noisy_factory", "xos", "xs", "oxs", "covg_fn_generator", "k_budget_generator", "factory_cheerleader", "graph_random",
+         "graph_cycle", "noisy_factory_exp", "xos3", "graph_internet"], 6)]
+    code = ("import sys, json, hashlib, numpy as np; from incomplete_cooperative.run.model import ModelInstance; out = []\n"
+            "for k, n, s in json.loads(sys.stdin.read()):\n"
+            "    inst = ModelInstance(number_of_players=n, game_generator=k, seed=s)\n"
+            "    g1 = inst.game_generator_fn(); g2 = inst.game_generator_fn()\n"
+            "    out.append([hashlib.sha256(np.array(g.get_values(), dtype=np.float64).tobytes()).hexdigest()[:16] for g in (g1, g2)])\n"
+            "print(json.dumps(out))")
+    outs = []
+    for hs in ("1", "2"):
+        try:
+            r = subprocess.run([venv.PYTHON, "-c", code], input=json.dumps(specs), capture_output=True, text=True,
+                               env=venv.child_env({"PYTHONHASHSEED": hs}), cwd=str(venv.ROOT), timeout=600)
+            outs.append(json.loads(r.stdout.strip().splitlines()[-1]))
+        except Exception as exc:
+            ctx.mark_inconclusive(f"ModelInstance determinism helper failed: {exc!r}")
+            return
+    for (k, n, s), a, b in zip(specs, outs[0], outs[1]):
+        ctx.count("determinism_model_instance_cross_process")
+        if a != b:
+            ctx.violation("same-seed-different-game-across-processes",
+                          f"ModelInstance(game_generator={k!r}, number_of_players={n}, seed={s}).game_generator_fn(): first two games "
+                          f"{a} in one interpreter, {b} in another (different PYTHONHASHSEED)",
+                          {"key": k, "n": n, "seed": s, "model_path": True})
+        ctx.case(("model", k, n, s), True)
+
+
 def run(ctx) -> None:
     from incomplete_cooperative.generators import GENERATORS
     rng = ctx.rng
@@ -149,9 +182,14 @@ def run(ctx) -> None:
     rng.shuffle(specs)
     specs = [s for s in specs if s[1] <= 6][: (300 if quick else 4000)]
     cross_process(ctx, specs, local)
+    if ctx.shard == 0 or not quick:
+        model_path(ctx)
 
 
 def replay(ctx, case) -> None:
+    if case.get("model_path"):
+        model_path(ctx)
+        return
     d = check_one(ctx, case["key"], case["n"], case["seed"])
     if case.get("cross_process") and d is not None:
         cross_process(ctx, [(case["key"], case["n"], case["seed"])], {(case["key"], case["n"], case["seed"]): d})
